@@ -702,9 +702,12 @@ func buildPreservationSet(files []parsedFile, cfg *Config) *preservationSet {
 
 func preservePackageSurfaceSymbols(files []parsedFile, cfg *Config, protected *preservationSet) {
 	qualifiedRefs := make(map[string]bool)
+	sessionExports := make(map[string]bool)
 	for i := range files {
 		recordFileQualifiedReferences(files[i].exprs, qualifiedRefs)
+		recordFileExports(files[i].exprs, sessionExports)
 	}
+	keepExports := cfg == nil || !cfg.RenameExports
 	for i := range files {
 		currentPkg := "user"
 		for _, expr := range files[i].exprs {
@@ -730,13 +733,26 @@ func preservePackageSurfaceSymbols(files []parsedFile, cfg *Config, protected *p
 				}
 			case "defun", "deftype":
 				if len(expr.Cells) > 1 && expr.Cells[1].Type == lisp.LSymbol {
-					if qualifiedRefs[currentPkg+"/"+expr.Cells[1].Str] {
+					key := currentPkg + "/" + expr.Cells[1].Str
+					if qualifiedRefs[key] {
 						preserveQualifiedDefinitionNode(files[i].analysis, expr.Cells[1], cfg, protected)
+					}
+					// The export may be written in another file of the
+					// package; the per-file analysis of this one then does
+					// not know the definition is exported.
+					if keepExports && sessionExports[key] {
+						preserveNodeSymbol(files[i].analysis, expr.Cells[1], protected)
 					}
 				}
 			default:
-				if node := configuredTopLevelNameNode(expr, cfg); node != nil && qualifiedRefs[currentPkg+"/"+node.Str] {
-					preserveQualifiedDefinitionNode(files[i].analysis, node, cfg, protected)
+				if node := configuredTopLevelNameNode(expr, cfg); node != nil {
+					key := currentPkg + "/" + node.Str
+					if qualifiedRefs[key] {
+						preserveQualifiedDefinitionNode(files[i].analysis, node, cfg, protected)
+					}
+					if keepExports && sessionExports[key] {
+						preserveNodeSymbol(files[i].analysis, node, protected)
+					}
 				}
 			}
 			if expr.Cells[0].Str == "set" && len(expr.Cells) > 1 {
@@ -745,6 +761,27 @@ func preservePackageSurfaceSymbols(files []parsedFile, cfg *Config, protected *p
 				}
 			}
 			preserveConfiguredPackageSurfaceSymbol(files[i].analysis, expr, cfg, protected)
+		}
+	}
+}
+
+// recordFileExports adds "pkg/name" for every name a top-level export form of
+// the file exports, tracking in-package the way the evaluator would.
+func recordFileExports(exprs []*lisp.LVal, exports map[string]bool) {
+	currentPkg := "user"
+	for _, expr := range exprs {
+		if expr.Type != lisp.LSExpr || expr.IsQuoted() || len(expr.Cells) == 0 || expr.Cells[0].Type != lisp.LSymbol {
+			continue
+		}
+		switch expr.Cells[0].Str {
+		case "in-package":
+			if pkg := packageName(expr.Cells[1:]); pkg != "" {
+				currentPkg = pkg
+			}
+		case "export":
+			for _, name := range exportNames(expr.Cells[1:]) {
+				exports[currentPkg+"/"+name] = true
+			}
 		}
 	}
 }
